@@ -17,7 +17,14 @@
                           client already knew to be closed at that moment (`Msg.dead`, history only)
         callReconnect id  `tc.ReConnect()` — `connection.ReConnect` under `connLock`, atomic:
                           `if c.isClosed { dial; c.isClosed = false; go c.recv; go c.send }`
-                          (the server is reachable: the dial succeeds)
+                          (the server is reachable: the dial succeeds). The lock is held from the
+                          test of the flag over the dial to the installation of the new connection.
+        callCheckClosed id / callInstall id   NOT the code as found: `ReConnect` with the dial
+                          outside the lock (configuration `unlockedDial`, see `initUnlocked`): the
+                          flag is read under the lock, the dial runs unlocked, then the lock is taken
+                          again and the new connection is installed without looking at the flag
+                          again, the socket of the connection it replaces being closed directly
+                          (`c.conn.Close()`, not `close()`)
         mark reconnected  [verif yield point "Send.reconnected"]
         callEnq id        `tc.sendQueue <- sendMsg{req}` (enabled iff the queue is not full)
         callFail id       `<-timerC` "tars client write timeout" (only when the queue is full)
@@ -82,6 +89,14 @@ def treeVariant : Variant :=
   if Tars.Consts.clientCloseGuardsCurrent = 1 ∧ 2 ≤ Tars.Consts.clientSendFailQueueRecvs ∧
      1 ≤ Tars.Consts.clientSendLostChecks then .repaired else .asFound
 
+/-- Does `connection.ReConnect` of the source tree leave the lock for the dial, or close a socket
+itself? (extractor: the dial sits between `connLock.Lock()` and its `Unlock`, and `ReConnect`
+contains no `.Close()` call). The theorems about `run` / `init` are about a tree for which this is
+`false`; the harness replays histories of a tree for which it is `true` from `initUnlocked`-like
+start states. -/
+def treeUnlockedDial : Bool :=
+  !(Tars.Consts.clientReConnectDialUnderLock == 1 && Tars.Consts.clientReConnectSocketCloses == 0)
+
 /-- `sendFailQueue` is modelled as `Option Msg`: its capacity is 1 in the source. -/
 example : Tars.Consts.clientSendFailQueueCap = 1 := rfl
 
@@ -133,6 +148,7 @@ deriving DecidableEq, Repr
 
 inductive CallPc
   | begun
+  | dialing
   | atConnected
   | connected
   | queued
@@ -160,12 +176,18 @@ structure State where
   seen : List (Nat × Nat) := []
   /-- configuration: `IdleTimeout` is short enough for the idle close to be possible at all -/
   idleOK : Bool := true
+  /-- configuration: `ReConnect` dials WITHOUT holding `connLock` (not the code as found; the
+  extractor checks that the dial sits between `Lock` and its `Unlock`) -/
+  unlockedDial : Bool := false
 deriving DecidableEq, Repr
 
 def init : State := {}
 
 /-- a client whose `IdleTimeout` is so long that the idle close cannot happen during the run -/
 def initNoIdle : State := { idleOK := false }
+
+/-- a client whose `ReConnect` dials outside the lock (and whose idle close is out of reach) -/
+def initUnlocked : State := { idleOK := false, unlockedDial := true }
 
 /-- yield points of the `verif` hook -/
 inductive Point
@@ -178,6 +200,8 @@ deriving DecidableEq, Repr
 inductive Action
   | callBegin (id : Nat)
   | callReconnect (id : Nat)
+  | callCheckClosed (id : Nat)
+  | callInstall (id : Nat)
   | markReconnected (id : Nat)
   | callEnq (id : Nat)
   | callFail (id : Nat)
@@ -238,6 +262,12 @@ def findCall (s : State) (id : Nat) : Option (Msg × CallPc) := s.calls.find? (f
 def setCall (s : State) (m : Msg) (pc : CallPc) : State :=
   { s with calls := s.calls.map (fun x => if x.1.id == m.id then (m, pc) else x) }
 
+/-- `c.conn.Close()` on the connection that is current (the last one), if any -/
+def closeLast (l : List Conn) : List Conn :=
+  match l.reverse with
+  | [] => []
+  | c :: r => ({ c with known := true } :: r).reverse
+
 def dropCall (s : State) (id : Nat) : State :=
   { s with calls := s.calls.filter (fun x => !(x.1.id == id)) }
 
@@ -260,6 +290,19 @@ def step (v : Variant) (cap : Nat) (s : State) : Action → Option State
         some { setCall s m .atConnected with conns := s.conns ++ [{}], isClosed := false }
       else some (setCall s m .atConnected)
     | _ => none
+  | .callCheckClosed id =>
+    if s.unlockedDial = true then
+      match findCall s id with
+      | some (m, .begun) => some (setCall s m (if s.isClosed then .dialing else .atConnected))
+      | _ => none
+    else none
+  | .callInstall id =>
+    if s.unlockedDial = true then
+      match findCall s id with
+      | some (m, .dialing) =>
+        some { setCall s m .atConnected with conns := closeLast s.conns ++ [{}], isClosed := false }
+      | _ => none
+    else none
   | .markReconnected id =>
     match findCall s id with
     | some (m, .atConnected) => some (setCall s m .connected)
@@ -540,7 +583,8 @@ def Action.isTau : Action → Bool
 
 /-- the internal actions that may be enabled in `s` -/
 def tauActions (s : State) : List Action :=
-  (s.calls.map (fun x => [Action.callReconnect x.1.id, .callEnq x.1.id])).flatten ++
+  (s.calls.map (fun x => [Action.callReconnect x.1.id, .callCheckClosed x.1.id, .callInstall x.1.id,
+      .callEnq x.1.id])).flatten ++
   ((List.range s.conns.length).map (fun k =>
     [Action.rEof k, .rErr k, .rClose k, .rSignal k, .sTopDone k, .sTopGo k, .sTakeFail k, .sNoFail k, .sTakeQ k,
      .sTickClosed k, .sTickIdle k, .sTickCont k, .sIdleClose k, .sInnerFail k, .sInnerDone k,
